@@ -128,7 +128,7 @@ impl Ctx {
         self.case_class = serde_json::from_str(class).unwrap_or_else(|_| json!({"class": class}));
         self.case_src = src.to_owned();
         self.strings = vec!["".into(), "a".into()];
-        self.rep.distinct.insert(hash64(src));
+        self.rep.distinct.insert(hash64(&format!("{class}|{src}")));
         self.count("cases", 1);
         // environment
         self.env = None;
@@ -545,3 +545,93 @@ pub fn keys_and_literals(t: &Ty, keys: &mut Vec<String>, lits: &mut Vec<String>)
 }
 
 pub type Map<K, V> = HashMap<K, V>;
+
+// ---- C12: library types -----------------------------------------------------------------------------
+
+impl Ctx {
+    /// `to_value(v)` inhabits `name()` and `inline()` for each given value.
+    pub fn c12_values<T: ts_rs::TS + Serialize + 'static>(&mut self, label: &str, vals: Vec<T>) {
+        let env = self.env();
+        let Some(tys) = self.types_of::<T>(label) else { return };
+        self.count("types", 1);
+        for v in &vals {
+            let j = match serde_json::to_value(v) {
+                Ok(j) => j,
+                Err(_) => {
+                    self.count("serde_refuses_to_serialize_value", 1);
+                    continue;
+                }
+            };
+            for (what, ty) in &tys {
+                self.rep.evaluations += 1;
+                match tsmodel::member(&env, ty, &j) {
+                    Ok(true) => self.count("values_in_type", 1),
+                    Ok(false) => self.violation(
+                        "serialized-library-value-not-in-reported-type",
+                        json!({"type": label, "via": what, "json": j, "ts": guarded(T::name).ok()}),
+                    ),
+                    Err(e) => self.rep.machinery_errors.push(format!("{}: {label}: {e:?}", self.case_id)),
+                }
+            }
+        }
+    }
+
+    /// "nothing of a different shape": every witness of the reported type deserializes.
+    pub fn c12_witnesses<T: ts_rs::TS + DeserializeOwned + 'static>(&mut self, label: &str) {
+        let env = self.env();
+        let Some(tys) = self.types_of::<T>(label) else { return };
+        let mut st = WitnessStats::default();
+        let ws = match tsmodel::witnesses(&env, &tys[0].1, &self.wcfg(), &mut st) {
+            Ok(w) => w,
+            Err(e) => {
+                self.rep.machinery_errors.push(format!("{}: {label}: {e:?}", self.case_id));
+                return;
+            }
+        };
+        self.count("witnesses", ws.len() as u64);
+        for w in ws {
+            self.rep.evaluations += 1;
+            if let Err(e) = serde_json::from_value::<T>(w.clone()) {
+                self.violation(
+                    "inhabitant-of-reported-type-rejected-by-deserialize",
+                    json!({"type": label, "json": w, "ts": guarded(T::name).ok(), "serde_error": e.to_string()}),
+                );
+            }
+        }
+    }
+
+    /// For types without a serde impl: the reported type has the shape the property fixes.
+    /// `expect` is a TypeScript type expression; equality is decided on the parsed types.
+    pub fn c12_shape<T: ts_rs::TS + 'static>(&mut self, label: &str, expect: &str) {
+        self.rep.evaluations += 1;
+        self.count("shape_checks", 1);
+        match guarded(T::name) {
+            Err(p) => self.violation("binding-function-panics", json!({"type": label, "panic": p})),
+            Ok(n) => match (tsmodel::parse_type(&n), tsmodel::parse_type(expect)) {
+                (Ok(a), Ok(b)) => {
+                    if a != b {
+                        self.violation("library-type-has-unexpected-shape", json!({"type": label, "reported": n, "expected": expect}));
+                    }
+                }
+                (a, b) => self.violation("type-expression-does-not-parse", json!({"type": label, "reported": n, "expected": expect, "errors": format!("{:?} {:?}", a.err(), b.err())})),
+            },
+        }
+    }
+
+    /// A derived struct with one field of the library type depends on exactly `expect`.
+    pub fn c12_deps<W: ts_rs::TS + 'static>(&mut self, label: &str, expect: &[&str]) {
+        self.rep.evaluations += 1;
+        self.count("dependency_checks", 1);
+        let own = W::ident();
+        match guarded(|| W::dependencies()) {
+            Err(p) => self.violation("binding-function-panics", json!({"type": label, "function": "dependencies", "panic": p})),
+            Ok(d) => {
+                let got: BTreeSet<String> = d.into_iter().map(|d| d.ts_name).filter(|n| *n != own).collect();
+                let want: BTreeSet<String> = expect.iter().map(|s| s.to_string()).collect();
+                if got != want {
+                    self.violation("library-type-dependencies-differ-from-its-arguments", json!({"type": label, "dependencies": got, "expected": want}));
+                }
+            }
+        }
+    }
+}
